@@ -56,6 +56,38 @@ CHECKS = {
         technique="stateless model checking with every lock/atomic/Once/WaitGroup operation as a scheduling point: unit seams (two threads on one ticker, three on one timeout manager) and the whole connection with API calls from several goroutines and traffic timed onto timer expiries; panic and deadlock oracles",
         text="All interleavings within budget of the ticker and timeout-manager seams and of a keepalive connection whose peer traffic arrives at the instant of the ping tick (and one quantum either side): no recovered panic in any thread, no thread left waiting for a lock/Once/WaitGroup after the drain.",
         note=NOTE_E1 + " Data races proper are not decided by the exhaustive step (the cooperative scheduler's hand-offs hide them from the race detector); they are looked for by a separate free-running -race pass reported as auxiliary evidence."),
+    "C02": dict(built=True, engine=E2, level=FE, design="4/C02",
+        technique="bounded-exhaustive enumeration of adversarial edit scripts over the ciphertext record stream (every single-bit flip of every record; drop/dup/swap/replay/reflect/inject/truncate at every position) replayed against the real Machine / NoiseConn after a real handshake",
+        text="After a real XX (v0, v2) or KK handshake, streams of 3-4 records (sizes 0,1,5; equal plaintexts included) are written by the real machine, edited by the man in the middle and read by the real peer through Machine.ReadMessage and NoiseConn; the reader (which, like every net.Conn consumer, stops at the first error) must only ever see a prefix of what was written, a record that differs on the wire must never be accepted, and every deviation must surface as an error.",
+        note="Cryptographic strength of ChaCha20-Poly1305 is trusted. The reader model stops at the first read error; that later genuine records would still decrypt for a reader that ignores errors is reported as an informational count. Multi-edit scripts beyond ordered pairs are not enumerated."),
+    "C03": dict(built=True, engine=E2, level=EX, design="4/C03",
+        technique="bounded-exhaustive enumeration of secret / key mismatches (every single-bit difference of the 112-bit secret, all expected-key mismatches over 4 static keys) on the real handshake over an in-memory duplex that logs every byte the responder writes",
+        text="For every enumerated mismatch both DoHandshake calls must fail, the responder's write log must be empty at that moment (so the auth payload never left it), neither machine may hold traffic keys, ConnData and callbacks must be untouched; matching secrets/keys must complete (non-vacuity). 8 cases run at the real scrypt cost.",
+        note="scrypt cost lowered to N=16 for bulk cases (package variable behind a verif-tag setter); static keys from a fixed list; secp256k1/scrypt strength trusted."),
+    "C04": dict(built=True, engine=E2, level=FE, design="4/C04",
+        technique="bounded-exhaustive enumeration of handshake configurations and man-in-the-middle rewrites (all 162 version-range x pattern configurations; every combination of version-byte substitutions; every single-bit flip of every act byte) on the real Machine",
+        text="Whenever both real DoHandshake calls complete, the views (version, complementary keys, peer static keys, stored key, auth payload byte-for-byte, callbacks) must agree; untampered compatible configurations must complete.",
+        note="scrypt cost lowered; payload sizes {0,1,498,499,600,65535,65536,(2MiB)}; bit flips on representative configurations only."),
+    "C08": dict(built=True, engine=E2, level=EX, design="4/C08",
+        technique="bounded-exhaustive enumeration of record-stream histories across key rotations (every prefix length up to 8/24 rotations, sizes 0/1/65535 around every boundary, all 70 interleavings of 4+4 records at a boundary) with a (key, nonce) uniqueness oracle on the real cipher states",
+        text="After every record: reader output equals writer input, the (key, nonce) pair of both encryptions has never been used before, ciphertexts of equal plaintexts never repeat, the key changes exactly at the rotation interval, writer and reader cipher states are identical, and no 8-byte window of plaintext or auth payload is on the wire.",
+        note="State observed through verif-tag accessors before and after each record; AEAD strength trusted."),
+    "C15": dict(built=True, engine=E2, level=EX, design="4/C15",
+        technique="bounded-exhaustive enumeration of write-size sequences x read-buffer-size sequences against a byte-stream reference model, for NoiseGrpcConn, NoiseConn and connKit",
+        text="Every write sequence of length <= 3 over {0,1,2,3} x every cycled read-buffer sequence over {1,2,3,4}, plus boundary sizes around 32 KiB and 64 KiB with buffers from 1 byte to 70000: 0<=n<=len(buf), nothing written beyond the buffer, bytes read == bytes written, oversize writes rejected or chunked, no EOF in the middle of an open stream.",
+        note="The reference model is the concatenation of accepted writes."),
+    "C16": dict(built=True, engine=E2, level=FE, design="4/C16",
+        technique="bounded-exhaustive enumeration of transport fragmentations (every uniform read size, every two-way and three-way cut of every handshake act and record) and of partial-write scripts (every two- and three-way partition of a record separated by timeouts) against the unfragmented run",
+        text="A fragmented handshake / record must behave exactly like the unfragmented one; repeated Flush after partial writes must emit exactly the record once, report exactly the plaintext length in total, and WriteMessage must refuse a new record while one is pending.",
+        note="Three-way cuts of acts longer than 120 bytes use field-boundary offsets and every 37th offset."),
+    "C17": dict(built=True, engine=E2, level=EX, design="4/C17",
+        technique="bounded-exhaustive enumeration of the mnemonic codec position-wise (every value of every word, every bit of the entropy) and of SID derivation over all ordered pairs of 8 static keys x 4 secrets",
+        text="decode(encode(e)) keeps the 110 significant bits and zeroes the rest; encode(decode(w)) = w; client and server derive the same id before and after pairing, send/receive ids cross over and differ only in the direction bit, distinct secrets give distinct ids.",
+        note="The 2^110 domain is covered position-wise, not in full (the codec is a plain 11-bit-per-word bit stream)."),
+    "C20": dict(built=True, engine=E2, level=MC, design="4/C20",
+        technique="explicit-state breadth-first search over TimeoutManager event histories under a virtual clock (synctest), canonicalised states, invariants evaluated on every transition of the real code",
+        text="BFS to depth 7 (quick) / 9 (thorough) over Sent/Received/sleep events for 12 adaptive and 2 static configurations: the adaptive timeout never drops below 1 s, the base changes only on a response to a never-retransmitted packet (and to max(1s, multiplier x RTT)), boosts happen only on a retransmitted DATA and at most once per base interval, a fresh sample clears the boost, a static timeout never changes.",
+        note="Alphabet: sequence numbers 0,1; sleeps {150ms,400ms,1s,2.5s}. float32 boost arithmetic compared within 1 microsecond. The oracle keeps its own sample bookkeeping, independent of the implementation's."),
     "C19": dict(built=True, engine=E2, level=EX, design="4/C19",
         technique="bounded-exhaustive enumeration of codec inputs against a round-trip oracle (every value of every field; every byte string up to 3 bytes, 4 bytes by tier)",
         text="Finite input spaces enumerated completely: all packet types x all 256 values of every one-byte field x both flags x boundary payload lengths; every byte string of length <= 3 and all 4-byte strings with a valid-or-adjacent type byte (all 2^32 in the thorough tier).",
